@@ -20,12 +20,19 @@ def main():
     work = Work("setup")
     try:
         files = sorted(f for f in os.listdir(HARNESS) if f.endswith("_test.go") and not f.startswith("cmd_"))
-        for syn in (False, True):
-            rc, out = go_test(work, files, "^TestVerifNothing$", {}, synctest=syn)
-            print(out[-1500:])
-            if rc != 0:
-                print("harness does not build against /repo")
-                return 1
+        # all harness files of package server compile together (the virtual-clock ones need GOEXPERIMENT=synctest)
+        rc, out = go_test(work, files, "^TestVerifNothing$", {}, synctest=True)
+        print(out[-1500:])
+        if rc != 0:
+            print("harness does not build against /repo")
+            return 1
+        # the subset used without the experiment (real-scheduler stress tests)
+        plain = [f for f in files if f in ("common_test.go", "c03_race_test.go", "c09_race_test.go", "c14_test.go")]
+        rc, out = go_test(work, plain, "^TestVerifNothing$", {})
+        print(out[-800:])
+        if rc != 0:
+            print("plain harness subset does not build against /repo")
+            return 1
         env = go_env()
         p = subprocess.run(["go", "build", "-o", os.devnull, "./cmd/kamal-proxy"], cwd=REPO, env=env)
         if p.returncode != 0:
